@@ -295,6 +295,13 @@ func cmdCheck(argv []string) int {
 						payload["query"] = qp
 					}
 				}
+				if !found && isSpecifiedNotProved(vd, id, o.Name) {
+					// an obligation that was never proved on the unchanged tree and is not part of any claim: a
+					// solver model for it that does not replay on the real code is no evidence of a defect
+					specifiedNotProved = append(specifiedNotProved, o.Name)
+					nObl--
+					continue
+				}
 				p := writeReplay(o.Name, payload)
 				viols = append(viols, violation{o.Name, reason, p, found})
 			}
